@@ -242,6 +242,20 @@ class GoCompileError(Exception):
     pass
 
 
+def go_read_number(t):
+    """Go's reading of one decimal numeric token (spec: Integer literals / Floating-point literals): a token with a `.` or
+    an exponent is a floating-point constant ('q', Fraction), digits alone are an integer constant ('i', int; octal after a
+    leading 0).  None: not a token of these forms (hexadecimal forms and `_` separators are not read)."""
+    if re.fullmatch(r"\d+", t):
+        v = go_read_int(t)
+        return None if v is None else ("i", v)
+    m = re.fullmatch(r"(\d+\.\d*|\.\d+|\d+)(?:[eE]([+-]?\d+))?", t)
+    if not m:
+        return None
+    ip, _, fp = m.group(1).partition(".")
+    return ("q", Fraction(int((ip + fp) or "0"), 10 ** len(fp)) * Fraction(10) ** int(m.group(2) or 0))
+
+
 def go_const_bin(sym, a, b):
     """one operator on two untyped constants, exactly: ('i', int) | ('q', Fraction) | ('b', bool)"""
     if a[0] == "b" or b[0] == "b":
@@ -281,9 +295,9 @@ def go_convert(ty, v):
 def go_eval_expr(e, env, fns):
     k = e[0]
     if k == "num":
-        t = e[1]
-        if not re.fullmatch(r"\d+(\.\d+)?", t): raise GoCompileError("bad-literal")
-        return ("c", ("q", Fraction(t)) if "." in t else ("i", int(t)))
+        c = go_read_number(e[1])
+        if c is None: raise GoCompileError("bad-literal")
+        return ("c", c)
     if k == "var":
         if e[1] in ("true", "false"): return ("b", e[1] == "true")
         return env[e[1]][1]
@@ -391,7 +405,7 @@ def go_file_eval(gofile, ty):
 
 def text_class(text, ty):
     """how well a printed literal text pins down the float it stands for"""
-    q = Fraction(text)
+    q = Fraction(go_read_number(text)[1])
     if fval(fbits(q, ty), ty) == q:
         return "exact"
     if ty == "float64":
@@ -458,7 +472,7 @@ def run(ctx):
     to_model.append("fprint\t(fprint)")
     model = ctx.model("c10", to_model) if to_model and os.path.exists(vlib.MODEL) else {}
     rnd = random.Random(ctx.seed)
-    n = {k: 0 for k in ("LIT", "NEG", "PAT", "OP", "FLT", "FC", "PARSE", "EVAL", "FMT", "TOSTR")}
+    n = {k: 0 for k in ("LIT", "NEG", "PAT", "OP", "FLT", "FC", "GOLIT", "PARSE", "EVAL", "FMT", "TOSTR")}
     eq = dict(n)
     stats = {"lit_accept": 0, "lit_reject_out_of_range": 0, "lit_reject_annotation": 0, "op_value_checks": 0, "op_const_exprs": 0,
              "flt_accept": 0, "flt_reject": 0, "flt_double_rounding_discriminating": 0, "flt_double_rounded": 0, "pat_accept": 0, "pat_reject": 0,
@@ -784,12 +798,37 @@ def run(ctx):
                         sig = {"oracle": "float-constant", "kind": "go-constant-expression-differs-from-source", "operand_text": "negative-zero"}
                         cls = "the constant -0.0 is +0 in Go"
                     else:
-                        order = ["exact", "f64-round-trip", "f32-round-trip-only"]
-                        cls = max([text_class(t_, ty) for t_ in texts if "." in t_] or ["exact"], key=order.index)
+                        order = ["exact", "f64-round-trip", "f32-round-trip-only", "integer-kind"]
+                        kinds = [(go_read_number(t_) or ("?",))[0] for t_ in texts]
+                        cls = max([text_class(t_, ty) for t_, k_ in zip(texts, kinds) if k_ == "q"] or ["exact"], key=order.index)
+                        if "i" in kinds:
+                            # a float operand printed without `.`/exponent is an INTEGER constant: `7 / 2` is integer division
+                            cls = "integer-kind"
                         sig = {"oracle": "float-constant", "kind": "go-constant-expression-differs-from-source", "type": ty, "operand_text": cls}
                     ctx.report(sig,
                                f"`{stmt}` at {ty} means {want_s} (each literal rounded to {ty}, IEEE operation) but the printed Go evaluates the "
                                f"literal TEXTS {texts[:4]} exactly and rounds once: {got_s} (operand texts: {cls})", pl)
+
+        # ---------------------------------------------------------------- GOLIT: the reading of one numeric token of the Go text
+        elif kind == "GOLIT":
+            text = args[0]
+            c = go_read_number(text)
+            if c is None:
+                mine = "bad"
+            elif c[0] == "i" and len(text) > 1 and text[0] == "0":
+                mine = "octal-int"
+            else:
+                def at(ty):
+                    b = fbits(Fraction(c[1]), ty)
+                    return "overflow" if b == finf(ty) else f"{b:x}"
+                mine = f"{'int' if c[0] == 'i' else 'float'} f32={at('float32')} f64={at('float64')}"
+            if re.fullmatch(r"0\d+", text) and go_read_int(text) is None:
+                mine = "octal-int"      # `08`: not a Go token at all; Rust is not asked (the harness answers octal-int by shape)
+            if pred == impl == mine:
+                eq[kind] += 1
+            else:
+                tie_fail(kind, r, pred + f" python={mine}")
+            stats["golit_" + mine.split()[0]] = stats.get("golit_" + mine.split()[0], 0) + 1
 
         # ---------------------------------------------------------------- PARSE / FMT / EVAL: model vs Rust std, plus python's own
         elif kind == "PARSE":
